@@ -2194,6 +2194,8 @@ impl Kanata {
             // running, or (timeout == 0, e.g. rapid-event-delay 0) its release is emitted by the
             // next tick.
             && self.layout.b().oneshot.keys.is_empty()
+            // The rapid-event pause is served by ticks; do not postpone it to the next input.
+            && self.layout.b().oneshot.pause_input_processing_ticks == 0
             && self.layout.b().active_sequences.is_empty()
             && self.layout.b().tap_dance_eager.is_none()
             && self.layout.b().action_queue.is_empty()
